@@ -231,7 +231,7 @@ def spin_oracle(case, out):
 class Check(DiffCheck):
     id = 'C01'
     # lockset engine (lib/lockset.py): mutex slow path enqueues with splock held (deferred unlock), hand-off under splock + head's thread.lock
-    lockset_rules = {10, 11, 12, 13, 14, 15, 20}
+    lockset_rules = {10, 11, 12, 13, 14, 15, 20, 26}
     needs_libphoton = True
     coq_dirs = ['Base', 'C04', 'Sched', 'E3', 'C01']
     # ownership / lock-result / not-stuck development: C01_Eff (case analysis + effect lemmas), C01_Cls (own_inv),
